@@ -139,7 +139,8 @@ class Scn:
         if registry is None:
             for cls in U.CUSTOM_CLASSES[:n_custom + 1]:
                 # the global namespace must be passed as the sentinel, '' is rejected by the API
-                self.reg.register(cls, self.ns if self.ns else GLOBAL, style=t.draw(4, 'style'))
+                self.reg.register(cls, self.ns if self.ns else GLOBAL, style=t.draw(4, 'style'),
+                                  path_entry_type=t.choice((None, None, U.HookEntry), 'entry-type'))
                 self.custom.append(cls)
         ctx = gen.swarm_ctx(t) if kinds is None else gen.Ctx(kinds=kinds)
         self.ctx = ctx
